@@ -15,9 +15,9 @@ def run(ctx):
     run_modeld_stats(ctx)
     ctx.evaluations += res['operations']; ctx.distinct_nontrivial += res['histories']; ctx.samples += res['samples']
     ctx.cov.update({k: v for k, v in res.items() if k not in ('fails', 'samples')})
-    def rp(fl): return ('monitor-' + fl['kind'], ['request history against the real server (tools/sys_c14.py): miss hit forced missro fail pperr notcacheable notcompile unsupported zero', 'observed: ' + fl['detail']], '\n'.join(fl['ops']))
+    def rp(fl): return ('monitor-' + fl['kind'], ['request history against the real server (tools/sys_c14.py): miss hit forced missro fail pperr fatal notcacheable notcompile unsupported zero', 'observed: ' + fl['detail']], '\n'.join(fl['ops']))
     monitor_failures(ctx, res['fails'], findings, 'real-server statistics monitor', rp)
-    ctx.rules.append('histories of 6-14 sequential or 3-5 x 4 concurrent requests against a real server: new / repeated / failing / #error sources, -E, --version, unsupported compiler, --zero-stats; '
+    ctx.rules.append('histories of 6-14 sequential or 3-5 x 4 concurrent requests against a real server: new / repeated / failing / #error sources, a hit whose output path is a directory (internal fatal-error path), -E, --version, unsupported compiler, --zero-stats; '
                      'every fourth with SCCACHE_RECACHE, every fifth on a read-only cache (store errors); all 15 counters compared with the fold of the regenerated increment table')
     ctx.assumptions += ['quiescence: counters are read after every client has returned', 'zeroing while requests are in flight leaves a slack of at most the number of in-flight requests (inherent, stated)']
 
